@@ -12,11 +12,55 @@ import x04ds
 import x04pf
 
 
+def alias_neg(ctx, only=None):
+    """A negative answer admitted in one piece behind an alias (LeaseNegAlias.tla): every terminal state of the model
+    is one (reply shape, age) case asked of the real cache twice, message-born and wire-born."""
+    import vf
+    neg = ctx.tlc("LeaseNegAlias", "MC_LeaseNegAlias.tla", "MC_LeaseNegAlias_neg.cfg", workers=4, timeout=300, must_pass=False,
+                  count=False, tag="negative twin: MINIMUM counted by class only (must violate ServedLive)")
+    if neg.violated != "ServedLive":
+        raise vf.MachineryError("negative twin MC_LeaseNegAlias_neg.cfg did not violate ServedLive (violated=%s rc=%s)"
+                                % (neg.violated, neg.rc))
+    r, nodes, edges, inits = ctx.tlc_graph("LeaseNegAlias", "MC_LeaseNegAlias.tla", "MC_LeaseNegAlias.cfg", workers=4, timeout=300)
+    cases = []
+    for n in nodes.values():
+        if n.get("phase") != "done":
+            continue
+        m = n["msg"]
+        cases.append({"rcode": m["rcode"], "ttlC": m["ttlC"], "ttlS": m["ttlS"], "min": m["min"], "hops": m["hops"],
+                      "tick": n["age"], "expired": n["out"] == "miss"})
+    if only:
+        cases = [c for c in cases if all(c[k] == v for k, v in only.items())]
+    if len(cases) < 100 and not only:
+        raise vf.MachineryError("LeaseNegAlias produced only %d terminal states" % len(cases))
+    if not any(c["expired"] for c in cases) or not any(not c["expired"] for c in cases):
+        raise vf.MachineryError("LeaseNegAlias cases are one-sided (all expired or all live)")
+    res = ctx.go_driver("./c04", "TestAliasNeg", {"cases": cases}, name="aliasneg", timeout=600)
+    ctx.take_driver_result(res, "[alias-borne negative] ")
+    c = res.get("counters", {})
+    if not only and (c.get("aliasneg_live_hits", 0) == 0 or c.get("aliasneg_second_from_downstream", 0) == 0):
+        raise vf.MachineryError("alias-borne negative stage is vacuous: %s" % c)
+    ctx.log("alias-borne negative answers: %d cases x 2 births; live hits %d, back to the downstream %d" % (
+        len(cases), c.get("aliasneg_live_hits", 0), c.get("aliasneg_second_from_downstream", 0)))
+
+
 def run(ctx, replay):
     ctx.cov["rule"] = ("behaviours = TLC -simulate behaviours of Lease.tla (answer half) replayed call by call on the real "
                        "cache.Cache / Store with a timestamp shifter as the clock; verdicts = C04 predicates on the real "
                        "replies against the driver's own lifetime oracle; distinct = distinct action sequences; recorded "
                        "runs validated by Trace_Lease with the property predicates evaluated on observed values")
+    if replay:
+        import json
+        with open(replay) as f:
+            rp = json.load(f)
+        obj = rp.get("replay", rp)
+        if obj.get("driver") == "aliasneg":
+            c = obj["case"]
+            res = ctx.go_driver("./c04", "TestAliasNeg", {"cases": [c]}, name="replay_aliasneg", timeout=300)
+            ctx.take_driver_result(res, "[replay alias-borne negative] ")
+            ctx.cov["states"] = max(ctx.cov["states"], 1)
+            ctx.cov["transitions"] = max(ctx.cov["transitions"], 1)
+            return
     if replay and c04_api.run_replay(ctx, replay):
         return
     x04dp.ONLY = "C04"
@@ -25,6 +69,7 @@ def run(ctx, replay):
     if replay and x04ds.run_replay(ctx, replay):
         return
     c04_api.run_api(ctx)
+    alias_neg(ctx)
     # DNS64 in front of the cache: the synthesised reply is composed from the cached AAAA NODATA and the cached A RRset
     # of differing ages (Lease64.tla, the DNS64 dimension of the answer half), same driver
     x04ds.run_tier(ctx)
